@@ -5,6 +5,7 @@ import (
 	"fmt"
 	"math"
 	"math/rand"
+	"strings"
 
 	"codeberg.org/TauCeti/mangle-go/ast"
 	"codeberg.org/TauCeti/mangle-go/functional"
@@ -40,8 +41,8 @@ func (c08) Cases(tier string) int {
 }
 func (c08) Describe() core.Info {
 	return core.Info{
-		Level: "exploration",
-		Rule: "pairs and triples of *related* constants (and atoms over them): a term, an independently rebuilt copy (public constructors, or functional.EvalExpr of the constructor expression), a one-leaf mutation, the same leaves in another kind (1 / 1.0 / \"1\" / time 1 / duration 1, list vs pair nesting, map vs struct with the same entries), maps/structs with permuted entry order (keys include hash-equal distinct constants), and unrelated random terms. Checked: reflexivity, symmetry, transitivity on the triple, Equals => equal Hash and equal String, equal String => Equals, canonical-encoding equality <=> Equals (so the result does not lean on the library's own hash short-cuts). Non-trivial: nesting depth >= 2 or a cross-kind pair; distinct by canonical encoding of the tuple.",
+		Level:       "exploration",
+		Rule:        "pairs and triples of *related* constants (and atoms over them): a term, an independently rebuilt copy (public constructors, or functional.EvalExpr of the constructor expression), a one-leaf mutation, the same leaves in another kind (1 / 1.0 / \"1\" / time 1 / duration 1, list vs pair nesting, map vs struct with the same entries), maps/structs with permuted entry order (keys include hash-equal distinct constants), and unrelated random terms. Checked: reflexivity, symmetry, transitivity on the triple, Equals => equal Hash and equal String, equal String => Equals, canonical-encoding equality <=> Equals (so the result does not lean on the library's own hash short-cuts). Non-trivial: nesting depth >= 2 or a cross-kind pair; distinct by canonical encoding of the tuple.",
 		Assumptions: []string{"floats are finite, names come from the lexer's character set (the property's stated domain)", "map keys within one map are pairwise structurally distinct"},
 	}
 }
@@ -113,6 +114,13 @@ func mutateLeaf(r *rand.Rand, v gen.Val) gen.Val {
 		}
 		return gen.Float(f + 1)
 	case "str":
+		if r.Intn(3) == 0 {
+			// the string that spells out the escape sequences of v ("a<newline>b" -> a, backslash, n, b): the two
+			// print differently only if the backslash itself is escaped
+			if t := c08SpellEscapes(v.S); t != v.S {
+				return gen.Str(t)
+			}
+		}
 		return gen.Str(v.S + "x")
 	case "bytes":
 		return gen.BytesV(append(v.RawBytes(), 0))
@@ -132,6 +140,31 @@ func mutateLeaf(r *rand.Rand, v gen.Val) gen.Val {
 		return gen.StructV(append(append([]gen.Val{}, v.Kids...), gen.Name("/extra"), gen.Num(0))...)
 	}
 	return gen.Num(0)
+}
+
+func c08SpellEscapes(s string) string {
+	var sb strings.Builder
+	for _, ru := range s {
+		switch {
+		case ru == '\n':
+			sb.WriteString(`\n`)
+		case ru == '\t':
+			sb.WriteString(`\t`)
+		case ru == '\r':
+			sb.WriteString(`\r`)
+		case ru == '"':
+			sb.WriteString(`\"`)
+		case ru == '\'':
+			sb.WriteString(`\'`)
+		case ru == '\\':
+			sb.WriteString(`\\`)
+		case ru < 0x20 || ru == 0x7f || ru > 0x7e:
+			fmt.Fprintf(&sb, `\u{%06x}`, ru)
+		default:
+			sb.WriteRune(ru)
+		}
+	}
+	return sb.String()
 }
 
 func crossKind(r *rand.Rand, v gen.Val) gen.Val {
